@@ -274,6 +274,8 @@ enum Ev {
     UpdOther,
     /// confirm that arrives after the confirm timeout (late)
     LateConfirm,
+    /// three fifths of the confirm timeout pass
+    HalfWait,
 }
 
 struct Series {
@@ -290,6 +292,8 @@ struct Series {
     saw_static: bool,
     done: bool,
     dead: bool,
+    /// virtual time at which the wait for the outstanding confirm runs out
+    deadline: Option<u64>,
 }
 
 pub struct C11 {
@@ -469,6 +473,7 @@ impl Scenario for C11 {
                         saw_static: false,
                         done: false,
                         dead: false,
+                        deadline: None,
                     });
                 }
                 Ev::SolConfirm(ok) => {
@@ -491,6 +496,9 @@ impl Scenario for C11 {
                     if let Some(s) = &mut series {
                         s.dead = true;
                     }
+                }
+                Ev::HalfWait => {
+                    sim.advance(TO * 3 / 5);
                 }
                 Ev::Timeout => {
                     sim.advance(TO);
@@ -535,6 +543,15 @@ impl Scenario for C11 {
                     let flags = if self.db == Db::D5 { cur.flags ^ 0x04 } else { cur.flags };
                     set_point(&mut sim, &mut mirror, k, idx, num, flags, UpdateOptions::detect_event());
                     sim.pump();
+                }
+            }
+            // the confirm wait runs out at its deadline whatever else arrived in the meantime
+            if let Some(s) = &mut series {
+                if let Some(d) = s.deadline {
+                    if s.awaiting.is_some() && sim.k.now_ms() >= d {
+                        s.dead = true;
+                        s.confirmed = false;
+                    }
                 }
             }
             if let Some(f) = &sent {
@@ -641,6 +658,7 @@ impl Scenario for C11 {
                 if r.con() {
                     s.awaiting = Some(r.seq());
                     s.confirmed = false;
+                    s.deadline = Some(sim.k.now_ms() + TO);
                 }
                 if r.fin() {
                     s.done = true;
@@ -707,11 +725,18 @@ fn scenarios(tier: &str) -> Vec<C11> {
             Ev::Other,
             Ev::Reconnect,
             Ev::LateConfirm,
+            Ev::HalfWait,
         ]);
         C11 { name: format!("{db:?}-tx{tx}-d{depth}"), db, tx, depth, alphabet }
     };
-    let mut v = vec![mk(Db::D3, 249, 4), mk(Db::D2, 249, 3), mk(Db::D4, 249, 3), mk(Db::D1, 2048, 3), mk(Db::D2, 2048, 3), mk(Db::D5, 249, 4)];
+    let timing = |db: Db, tx: usize, depth: usize| {
+        let alphabet = vec![Ev::Read(0), Ev::SolConfirm(true), Ev::SolConfirm(false), Ev::HalfWait, Ev::Timeout, Ev::UpdIn];
+        C11 { name: format!("{db:?}-tx{tx}-timing-d{depth}"), db, tx, depth, alphabet }
+    };
+    let mut v = vec![timing(Db::D3, 249, 5), mk(Db::D3, 249, 4), mk(Db::D2, 249, 3), mk(Db::D4, 249, 3), mk(Db::D1, 2048, 3), mk(Db::D2, 2048, 3), mk(Db::D5, 249, 4)];
     if tier == "thorough" {
+        v.push(timing(Db::D3, 249, 7));
+        v.push(timing(Db::D5, 300, 6));
         for db in [Db::D1, Db::D2, Db::D3, Db::D4, Db::D5] {
             for tx in [249usize, 300, 2048] {
                 v.push(mk(db, tx, if db == Db::D3 || db == Db::D5 { 5 } else { 4 }));
@@ -891,11 +916,166 @@ impl crate::explore::CaseSpace for AttrReads {
     }
 }
 
+// ---------------------------------------------------------------------------------------
+// event classes and static data in one READ: every selected event, then the static data
+// ---------------------------------------------------------------------------------------
+
+/// `e` analog events (g32v3, 13 octets each) are waiting; one READ asks for classes 1, 2, 3 and
+/// for static data; an ideal master confirms fragment by fragment.  The series is orderly, it
+/// reports every waiting event exactly once in order of occurrence, all of them before any
+/// static object, and every selected static point exactly once.
+struct EventSeries;
+
+const ES_EVENTS: [usize; 7] = [1, 17, 18, 19, 30, 37, 60];
+const ES_TX: [usize; 4] = [249, 251, 300, 2048];
+const ES_TAILS: [&str; 4] = ["none", "g1v0", "class0", "g30v0-range"];
+
+impl crate::explore::CaseSpace for EventSeries {
+    fn name(&self) -> String {
+        "events-then-static".into()
+    }
+    fn seeded(&self) -> bool {
+        true
+    }
+    fn total(&self) -> usize {
+        ES_EVENTS.len() * ES_TX.len() * ES_TAILS.len()
+    }
+    fn run(&self, index: usize, transcript: bool) -> RunResult {
+        let mut res = RunResult::default();
+        let e = ES_EVENTS[index % ES_EVENTS.len()];
+        let i = index / ES_EVENTS.len();
+        let tx = ES_TX[i % ES_TX.len()];
+        let tail = (i / ES_TX.len()) % ES_TAILS.len();
+        res.obs = index as u64 + 3311;
+        let cfg = OCfg { sol_tx: tx, confirm_timeout_ms: TO, event_buf: [100; 8], ..Default::default() };
+        let mut sim = OSim::new(&cfg, 1);
+        sim.db_quiet(|db| {
+            for i in 0..3u16 {
+                db.add(i, Some(EventClass::Class1), AnalogInputConfig::new(StaticAnalogInputVariation::Group30Var1, EventAnalogInputVariation::Group32Var3, 0.0));
+            }
+            db.add(0, None, BinaryInputConfig::default());
+            db.update(0, &common::binary(true, 1), UpdateOptions::no_event());
+        });
+        let mut last = [0f64; 3];
+        sim.db(|db| {
+            for j in 0..e {
+                let v = 100.0 + j as f64;
+                last[j % 3] = v;
+                db.update((j % 3) as u16, &common::analog(v, 1000 + j as u64), UpdateOptions::detect_event());
+            }
+        });
+        sim.take_out();
+        let mut objs = app::class_headers(true, true, true, false);
+        match tail {
+            1 => objs.extend(app::hdr_all(1, 0)),
+            2 => objs.extend(app::hdr_all(60, 1)),
+            3 => objs.extend(app::hdr_range8(30, 0, 0, 1)),
+            _ => {}
+        }
+        let key = format!("events+{}", ES_TAILS[tail]);
+        let what = format!("{e} events, tx {tx}, READ class 1/2/3 + {}", ES_TAILS[tail]);
+        sim.send(&app::request(3, fc::READ, &objs));
+        let mut frags: Vec<app::Resp> = Vec::new();
+        let mut finished = false;
+        for _round in 0..40 {
+            let rs: Vec<app::Resp> = sim.take_out().iter().filter_map(|t| t.frag()).filter_map(app::Resp::parse).collect();
+            if rs.is_empty() {
+                break;
+            }
+            let mut con = None;
+            for r in rs {
+                res.transitions += 1;
+                if transcript {
+                    res.transcript.push(format!("<- {} ({} object octets)", app::hex(&r.raw[..4]), r.objects.len()));
+                }
+                if r.con() {
+                    con = Some(r.seq());
+                }
+                if r.fin() {
+                    finished = true;
+                }
+                frags.push(r);
+            }
+            match con {
+                Some(s) => sim.send(&app::confirm(s, false)),
+                None => break,
+            }
+            if finished {
+                // anything after the final fragment is caught below
+                let extra: Vec<app::Resp> = sim.take_out().iter().filter_map(|t| t.frag()).filter_map(app::Resp::parse).collect();
+                frags.extend(extra);
+                break;
+            }
+        }
+        if let Some(f) = sim.failure() {
+            res.violation = Some(Violation::new("C11.X0", f.clone(), f));
+            return res;
+        }
+        if frags.is_empty() || !finished {
+            res.violation = Some(Violation::new("C11.E0", key, format!("{what}: the series has {} fragments and no final one", frags.len())));
+            return res;
+        }
+        let mut events: Vec<(u32, f64)> = Vec::new();
+        let mut statics: Vec<(Kind, u32, f64)> = Vec::new();
+        for (k, r) in frags.iter().enumerate() {
+            if r.fir() != (k == 0) || r.fin() != (k == frags.len() - 1) || r.seq() != ((3 + k as u8) & 0x0F) {
+                res.violation = Some(Violation::new("C11.E1", key, format!("{what}: fragment {} of {} has FIR={} FIN={} sequence {}", k + 1, frags.len(), r.fir(), r.fin(), r.seq())));
+                return res;
+            }
+            let ms = match r.headers().map_err(|e| format!("{e:?}")).and_then(|h| decode_measurements(&h)) {
+                Ok(m) => m,
+                Err(e) => {
+                    res.violation = Some(Violation::new("C11.E2", key, format!("{what}: fragment {} does not decode: {e}", k + 1)));
+                    return res;
+                }
+            };
+            for m in ms {
+                let v = m.val.as_f64().unwrap_or(f64::NAN);
+                if m.is_event {
+                    if !statics.is_empty() {
+                        res.violation = Some(Violation::new("C11.G7", "event-after-static-data", format!("{what}: {:?}[{}] in fragment {}", m.kind, m.index, k + 1)));
+                        return res;
+                    }
+                    events.push((m.index, v));
+                } else {
+                    statics.push((m.kind, m.index, v));
+                }
+            }
+        }
+        let want_events: Vec<(u32, f64)> = (0..e).map(|j| ((j % 3) as u32, 100.0 + j as f64)).collect();
+        if events != want_events {
+            res.violation = Some(Violation::new(
+                "C11.E3",
+                key,
+                format!("{what}: the series of {} fragments reports {} of the {e} selected events (first difference at position {:?})", frags.len(), events.len(), events.iter().zip(want_events.iter()).position(|(a, b)| a != b)),
+            ));
+            return res;
+        }
+        let cur = |i: usize| if e > i { last[i] } else { 0.0 };
+        let want_static: Vec<(Kind, u32, f64)> = match tail {
+            1 => vec![(Kind::Binary, 0, 1.0)],
+            2 => vec![(Kind::Binary, 0, 1.0), (Kind::Analog, 0, cur(0)), (Kind::Analog, 1, cur(1)), (Kind::Analog, 2, cur(2))],
+            3 => vec![(Kind::Analog, 0, cur(0)), (Kind::Analog, 1, cur(1))],
+            _ => vec![],
+        };
+        if statics != want_static {
+            res.violation = Some(Violation::new("C11.E4", key, format!("{what}: static part {statics:?}, expected {want_static:?}")));
+            return res;
+        }
+        res.model_states.push((frags.len().min(6) * 10 + tail) as u64);
+        res.nontrivial = true;
+        res
+    }
+}
+
 pub fn replay(scenario: &str, path: &[usize]) -> Option<RunResult> {
     {
         use crate::explore::CaseSpace;
         if scenario == AttrReads.name() {
             return Some(AttrReads.run(path[0], true));
+        }
+        if scenario == EventSeries.name() {
+            return Some(EventSeries.run(path[0], true));
         }
     }
     scenarios("thorough").into_iter().find(|s| s.name == scenario).map(|s| s.run(path, true))
@@ -907,9 +1087,10 @@ pub fn check(tier: &str) -> i32 {
         c.explore(&s);
     }
     c.cases(&AttrReads);
+    c.cases(&EventSeries);
     c.finish(
         "model_checking",
-        "every event history over the listed alphabet (8-10 READ requests per database: class 0, class 1230, all objects, 8/16-bit ranges inside / overlapping / outside the index set, a specific variation, several headers; right / wrong / late solicited confirm, confirm timeout, another request, reconnect, update of a selected and of another point) up to the listed depth on five databases (packed binaries; eight types with sparse indices; 100 analogs; binaries with mixed flags; 60 analogs followed by binaries whose *flags* are updated while the series is under way) and three transmit buffer sizes; a mirrored database is snapshotted when each READ is delivered and the concatenated series is compared with it; non-trivial = a series completed (and spanned several fragments for the small buffers); distinct = distinct observation trace",
+        "every event history over the listed alphabet (8-10 READ requests per database: class 0, class 1230, all objects, 8/16-bit ranges inside / overlapping / outside the index set, a specific variation, several headers; right / wrong / late solicited confirm, confirm timeout, another request, reconnect, update of a selected and of another point) up to the listed depth on five databases (packed binaries; eight types with sparse indices; 100 analogs; binaries with mixed flags; 60 analogs followed by binaries whose *flags* are updated while the series is under way) and three transmit buffer sizes; a mirrored database is snapshotted when each READ is delivered and the concatenated series is compared with it; plus timing histories (three fifths of the confirm timeout pass; the wait for a confirm ends at its deadline whatever else arrived meanwhile), and a product of waiting event counts {1,17,18,19,30,37,60} x transmit sizes {249,251,300,2048} x static tails {none, g1v0, class 0, g30 range} read together with classes 1/2/3 (every waiting event exactly once and in order, before any static object); non-trivial = a series completed (and spanned several fragments for the small buffers); distinct = distinct observation trace",
         &[
             "updates are placed at quiescent points between fragments (H6 lock-point placements are not built)",
             "values are small integers representable in every variation used (variation-specific carrying is C10's subject)",
